@@ -171,6 +171,14 @@ func c08Menu(w *wworld.World) []string {
 		if bal < 4 && ww.DB.Inner.GetKeysetCounter(w.Mints[ww.Default].ActiveID()) < 14 {
 			ops = append(ops, fmt.Sprintf("mint|%d|16", i))
 		}
+		// a restored wallet (its proofs carry no DLEQ) tops up once (new proofs carry DLEQ) and then spends nearly
+		// everything in one go, so that one request mixes both kinds of inputs in whatever order the wallet picks
+		if ww.Gen > 0 && bal == 64 {
+			ops = append(ops, fmt.Sprintf("mint|%d|8", i))
+		}
+		if ww.Gen > 0 && bal > 64 && len(w.Tokens) < 2 {
+			ops = append(ops, fmt.Sprintf("send|%d|%d|0", i, bal-3), fmt.Sprintf("melt|%d|%d|S", i, bal-6))
+		}
 		if bal >= 5 && len(w.Tokens) < 2 {
 			ops = append(ops, fmt.Sprintf("send|%d|4|0", i), fmt.Sprintf("send|%d|3|0", i), fmt.Sprintf("send|%d|3|1", i), fmt.Sprintf("htlc|%d|2", i))
 			for _, o := range w.Wallets {
@@ -214,7 +222,8 @@ func c08Menu(w *wworld.World) []string {
 func c08Specs(quick bool) []*wSpec {
 	cfg := wworld.Config{FeeA: 100, FeeB: 0, TwoMints: true, Wallets: []wworld.WalletCfg{{Default: "a"}, {Default: "a"}, {Default: "b"}}}
 	// W1 holds proofs with DLEQ{e,s,r}; W2 is created by Restore from a funded mnemonic (its proofs carry no DLEQ)
-	init := []string{"mint|0|16", "mint|1|16", "restore|1"}
+	// (W2 mints 64 so that after the restore its biggest coins are DLEQ-less ones)
+	init := []string{"mint|0|16", "mint|1|64", "restore|1"}
 	d := 2
 	if !quick {
 		d = 4
